@@ -76,11 +76,17 @@ pub struct Opts<'a> {
     pub timeout_ms: u64,
     /// stdout opened on this path for writing (e.g. /dev/full) instead of a pipe
     pub stdout_path: Option<String>,
+    /// run the binary as this unprivileged user and group (the checks themselves run as root)
+    pub uid: Option<u32>,
 }
 
 impl<'a> Opts<'a> {
     pub fn new(args: Vec<String>) -> Self {
-        Opts { args, stdin: Stdin::Null, cwd: None, env: vec![], timeout_ms: 20_000, stdout_path: None }
+        Opts { args, stdin: Stdin::Null, cwd: None, env: vec![], timeout_ms: 20_000, stdout_path: None, uid: None }
+    }
+    pub fn as_user(mut self, uid: u32) -> Self {
+        self.uid = Some(uid);
+        self
     }
     pub fn stdout_to(mut self, p: &str) -> Self {
         self.stdout_path = Some(p.to_string());
@@ -105,6 +111,10 @@ pub fn run(o: Opts) -> Run {
     }
     if let Some(d) = o.cwd {
         cmd.current_dir(d);
+    }
+    if let Some(u) = o.uid {
+        use std::os::unix::process::CommandExt;
+        cmd.uid(u).gid(u);
     }
     cmd.stderr(Stdio::piped());
     match o.stdout_path.as_ref().and_then(|p| std::fs::OpenOptions::new().write(true).open(p).ok()) {
